@@ -28,7 +28,7 @@ EXPECTED_CLAIM_ERRORS = ("Cannot claim while paused", "Item not whitelisted", "C
 
 
 def budgets(tier):
-    return (64, 48) if tier == "quick" else (1600, 60)
+    return (60, 46) if tier == "quick" else (1600, 60)
 
 
 def strip(o):
